@@ -231,7 +231,10 @@ def _reachable_offsets(routine, ctx_aware=True, follow_calls=True, through_ends=
         if t is not None and t in idx and (follow_calls or name != "Call"):
             stack.append(idx[t])
         after_ctx = ctx_aware and i > 0 and ops[i - 1][1] in CTX_OPS
-        if name == "Jump" or (name in FLOW_END and not after_ctx and not through_ends):
+        if name == "Jump" or (name == "JumpCommon" and not ctx_aware):
+            # (for the decompiler JumpCommon is a guaranteed jump like Jump: nothing follows it, whatever stands in front of it)
+            continue
+        if name in FLOW_END and not after_ctx and not through_ends:
             continue
         stack.append(i + 1)
     return {ops[i][0] for i in seen}
